@@ -349,6 +349,69 @@ def burst(res: Result, N, k, engine, how):
                       {"N": N, "k": k, "engine": engine, "how": how})
 
 
+# ---------------------------------------------------------------------------
+# random machines with cycles of every kind
+# ---------------------------------------------------------------------------
+def random_machines(res, spec, n, wd):
+    """Generated statecharts whose always / raise / onDone / nested-expansion edges may close
+    cycles anywhere, with a random maxIterations: every start()/send() must return (a counter on
+    the transition records aborts a runaway), leave a legal configuration, and the interpreter
+    must still answer a probe afterwards."""
+    from .. import drive, gen, oracle
+    ci = spec["chunk"]
+    for j in range(n):
+        idx = ci * 100000 + j
+        rng = rng_for(spec["seed"], ID, ci, idx, "rand")
+        N = rng.choice([3, 4, 6, 9, 14, 22, 35])
+        P = gen.profile("effects", loops=True, maxit=N, p_always=0.4, p_raise=0.45, p_ondone=0.6,
+                        ondone_forward=False, p_final=0.2, p_parallel=0.3, max_states=14, p_guard=0.3,
+                        p_effects=0.5, p_root_on=0.5)
+        case = gen.gen_case(rng_for(spec["seed"], ID, ci, idx, "case"), P)
+        nacts = 2 + max([len(t.actions) for t in case.trans] + [1])
+        cap = 60 * (N + 3) * (N + 3) * nacts
+        for engine in ("sync", "async"):
+            wd.arm("random idx=%d %s" % (idx, engine))
+            st = {"tx": 0, "step": -2, "max": 0}
+
+            def setup(run, _st=st, _cap=cap, _idx=idx, _eng=engine, _N=N):
+                def on_tx(interp, rec, __st=_st):
+                    __st["tx"] += 1
+                    if __st["tx"] > _cap:
+                        _abort_runaway("C13:random-machine-does-not-terminate/%s" % _eng,
+                                       "more than %d transitions in one start()/send() with maxIterations=%d" % (
+                                           _cap, _N), {"idx": _idx, "engine": _eng, "maxIterations": _N,
+                                                       "plan": case.plan})
+                run["rec"].on_tx = on_tx
+
+            def on_step(run, step, _st=st, _eng=engine, _idx=idx):
+                _st["max"] = max(_st["max"], _st["tx"])
+                _st["tx"] = 0
+                if isinstance(step.extra, Exception):
+                    return True
+                if step.phase == "send" and _st.get("prev") == "running":
+                    res.count("random.events-after-a-cut-or-chain")
+                    if not any(r[0] == "ev" for r in run["rec"].log[step.log_from:]):
+                        res.violation("C13:interpreter-deaf-after-cut/%s" % _eng,
+                                      "a running interpreter did not process the next event (step %d)" % step.i,
+                                      {"idx": _idx, "plan": case.plan}, case={"idx": _idx})
+                        return True
+                _st["prev"] = step.status
+                why = oracle.legal(case.tree, step.cfg)
+                if why and step.status == "running":
+                    res.violation("C13:illegal-configuration-after-cut/%s" % _eng,
+                                  "after step %d: %s" % (step.i, why), {"idx": _idx, "plan": case.plan},
+                                  case={"idx": _idx})
+                    return True
+                return False
+            f = drive.run_sync if engine == "sync" else drive.run_async
+            run = f(case, 10, rng_for(spec["seed"], ID, ci, idx, "ev", engine), on_step, setup=setup)
+            res.evaluations += 1
+            res.count("random.runs." + engine)
+            if st["max"] > 3 * N:
+                res.count("random.long-chains")
+                res.hashes.add(h(["rand", idx, engine]))
+
+
 def run_chunk(spec):
     observe.quiet_logs()
     res = Result()
@@ -393,6 +456,8 @@ def run_chunk(spec):
             continue
         wd.arm("burst=%r" % (b,))
         burst(res, *b)
+    if not only:
+        random_machines(res, spec, 12 if tier == "quick" else 1500, wd)
     wd.disarm()
     return res.to_json()
 
@@ -403,7 +468,8 @@ def quota(counters, tier):
         for eng in ("sync", "async"):
             if counters.get("runs.%s.%s" % (fam, eng), 0) == 0:
                 out.append("family-never-run:%s.%s" % (fam, eng))
-    for k in ("finite-chains", "infinite-chains", "bursts", "async-invoke-chain.starvation-only"):
+    for k in ("finite-chains", "infinite-chains", "bursts", "async-invoke-chain.starvation-only",
+              "random.runs.sync", "random.runs.async", "random.long-chains"):
         if counters.get(k, 0) == 0:
             out.append("monitor-never-reached:" + k)
     return out
